@@ -184,6 +184,11 @@ def scaling_monitor(R, ctx):
     size is at most about twice as long (keys with one common hash in maps and sets; long flat sequences as the control)"""
     families = [("flood-map", lambda n: flood(R, "map", n)), ("flood-set", lambda n: flood(R, "set", n)),
                 ("flat-seq", lambda n: tag(16) + i16(n) + i8(1) * n)]
+    if hasattr(R, "C"):
+        # the type id of a registered class that uses the default deserialize, d times over, then a well-formed innermost body: every
+        # level finds an OBJECT where its field count should be - refused at once by a decoder that reads forward only
+        ctid = R.C.HandshakeClientChallengeResponseMessage.type_id
+        families.append(("count-chain", lambda n: tag(ctid) * max(4, n // 125) + i8(1) + i8(7)))      # depth 12, 24 (thorough: 16, 32, 64)
     if hasattr(R, "hello") and hasattr(R, "C"):
         families.append(("hello-chain", lambda n: hello_chain(R, max(4, n // 125))))      # 12, 24 (thorough: 16, 32, 64) hellos
     for name, make in families:
@@ -206,7 +211,7 @@ def scaling_monitor(R, ctx):
                 ctx.failure("superlinear", "%s: decoding %d keys (%d bytes) took %.2f s of CPU time, %d keys (%d bytes) took %.2f s: doubling the "
                             "input multiplied the work by %.1f - %s" %
                             (name, n1, b1, d1, n2, b2, d2, d2 / max(d1, 1e-9),
-                             "the decoder goes over the same bytes again and again (harness/props/c14.py hello_chain)" if name == "hello-chain"
+                             "the decoder goes over the same bytes again and again (harness/props/c14.py, family %s)" % name if name in ("hello-chain", "count-chain")
                              else "the keys share one hash and every insertion compares with all earlier ones"),
                             {"case": ["case mon", R.reg_line, "dec big"], "at": 1, "label": name, "bytes": b2, "keys": n2,
                              "how": "harness/props/c14.py flood(R, kind, n_keys)"})
